@@ -699,8 +699,16 @@ func gxRegexp(r *rng, salt string) *GX {
 			expr = fmt.Sprintf(`[%c-%c%c]{1,3}`, lo, lo+rune(6000+h%9000), rune(0x1F600+h%64)) + `(?:` + salt + `)?`
 		}
 	}
+	return gxRegexpOf(expr, r.chance(1, 2))
+}
+
+// rejRegexps are the patterns whose generated candidates are often rejected by the match re-check (empty-width
+// assertions): the value returned must not depend on the rejected attempts.
+var rejRegexps = []string{`\bid\b.`, `[a-z]+ ?\B[.]`, `\B.\B`, `\b\w{1,3}\b\W?`, `\b\w+\b`, `(?m)^ab$`, `a\z`, `\Aa`, `^\w+@\w+\.com$`, `\B[a-c]{0,2}\B`, `x?\b-?\b`}
+
+func gxRegexpOf(expr string, asString bool) *GX {
 	re := regexp.MustCompile(expr)
-	if r.chance(1, 2) {
+	if asString {
 		desc := fmt.Sprintf("StringMatching(%q)", expr)
 		return &GX{Desc: desc, Gen: rapid.StringMatching(expr).AsAny(), Cmp: true, Rej: true, Check: func(v any) string {
 			s, ok := v.(string)
